@@ -1,6 +1,11 @@
 import Percival.Model.CpuStep
 import Percival.Proofs.CpuPaths
-/-! Helper lemmas for `C03.exec_crc_line`: the L2 part of a `crc` line of `pmodel cpu`. -/
+import Percival.Proofs.CpuAesSpec
+import Percival.Proofs.CpuAesni
+import Percival.Proofs.AesStep
+import Percival.Proofs.MDAbsorb
+/-! Helper lemmas for the `exec_*` theorems of C03 (`pmodel cpu`): the L2 part of a `crc` line; the `aesblock` / `ctr`
+answers are `Spec.Aes` / `Spec.Ctr`, and the models of the routed C code paths agree with them. -/
 namespace Percival.Proofs.CpuStep
 open Percival Percival.Model.CpuPaths Percival.Model.CpuStep Percival.Proofs.CpuPaths
 
@@ -34,5 +39,278 @@ theorem crcStates_spec : ∀ (calls : List Call) (s : UInt32),
           intro hnil
           have := i1; rw [hnil] at this; simp at this)]
         rw [h3]; simp [List.foldl_append]
+
+/-! ## `aesblock` / `ctr` -/
+section aes
+open Percival.Spec
+
+/-- what `stepOp` computes for an `aesblock` op is `Spec.Aes.encryptBlock` -/
+theorem aesBlock_eq_spec (key blk : List UInt8) (hk : key.length = 16 ∨ key.length = 32) (hb : blk.length = 16) :
+    aesBlock key blk = some (Aes.encryptBlock key blk) := by
+  obtain ⟨b, h1, h2⟩ := CpuAesSpec.ofBytes_bytes blk hb
+  unfold aesBlock
+  rw [if_pos hk, h1, Option.bind_some]
+  have := CpuAesSpec.encrypt_eq_spec key hk b
+  rw [h2] at this
+  exact this
+
+theorem aesBlock_none (key blk : List UInt8) (h : ¬ ((key.length = 16 ∨ key.length = 32) ∧ blk.length = 16)) :
+    aesBlock key blk = none := by
+  unfold aesBlock
+  by_cases hk : key.length = 16 ∨ key.length = 32
+  · rw [if_pos hk, CpuAesSpec.ofBytes_none blk (fun hb => h ⟨hk, hb⟩)]; rfl
+  · rw [if_neg hk]
+
+theorem zipWith_take_drop {α β γ : Type} (g : α → β → γ) : ∀ (ks : List β) (n : Nat) (rest : List α) (tl : List β),
+    ks.length = n → List.zipWith g rest (ks ++ tl) = List.zipWith g (rest.take n) ks ++ List.zipWith g (rest.drop n) tl
+  | [], n, rest, tl, h => by
+    have : n = 0 := by simpa using h.symm
+    subst this; simp
+  | k :: ks, n, [], tl, h => by simp
+  | k :: ks, n, r :: rs, tl, h => by
+    obtain ⟨n', rfl⟩ : ∃ n', n = n' + 1 := ⟨ks.length, by simpa using h.symm⟩
+    simp only [List.cons_append, List.zipWith_cons_cons, List.take_succ_cons, List.drop_succ_cons]
+    rw [zipWith_take_drop g ks n' rs tl (by simpa using h)]
+
+/-- the block loop of `ctrStream`: block `j` of the input is XORed with `AES_k(nonce ‖ be64(j))` -/
+theorem ctrGo_spec (key nonce : List UInt8) (hk : key.length = 16 ∨ key.length = 32) (hn : nonce.length = 8) :
+    ∀ (f i : Nat) (rest : List UInt8) (acc : List (List UInt8)) (last : List UInt8), rest.length ≤ 16 * f →
+      ∃ chunks, ctrGo key nonce f i rest acc last =
+          some (chunks, if f = 0 then last else Aes.encryptBlock key (nonce ++ Ctr.be64 (i + f - 1))) ∧
+        chunks.reverse.flatten = acc.reverse.flatten ++
+          List.zipWith (· ^^^ ·) rest ((List.range' i f).flatMap fun j => Aes.encryptBlock key (nonce ++ Ctr.be64 j))
+  | 0, i, rest, acc, last, h => by
+    have : rest = [] := List.eq_nil_of_length_eq_zero (by omega)
+    subst this
+    exact ⟨acc, rfl, by simp⟩
+  | f+1, i, rest, acc, last, h => by
+    have hblk : (nonce ++ Ctr.be64 i).length = 16 := by rw [List.length_append, hn]; rfl
+    have hks : (Aes.encryptBlock key (nonce ++ Ctr.be64 i)).length = 16 :=
+      Proofs.Aes.encryptBlock_length key _ hk hblk
+    have ha : aesBlock key (nonce ++ Spec.be64enc i) = some (Aes.encryptBlock key (nonce ++ Ctr.be64 i)) :=
+      aesBlock_eq_spec key _ hk hblk
+    obtain ⟨chunks, h1, h2⟩ := ctrGo_spec key nonce hk hn f (i + 1) (rest.drop 16)
+      (List.zipWith (· ^^^ ·) (rest.take 16) (Aes.encryptBlock key (nonce ++ Ctr.be64 i)) :: acc)
+      (Aes.encryptBlock key (nonce ++ Ctr.be64 i)) (by rw [List.length_drop]; omega)
+    refine ⟨chunks, ?_, ?_⟩
+    · simp only [ctrGo, ha, h1]
+      congr 2
+      by_cases hf : f = 0
+      · subst hf; simp
+      · rw [if_neg hf, if_neg (by omega)]; congr 3; omega
+    · rw [h2, List.range'_succ, List.flatMap_cons, zipWith_take_drop _ _ 16 _ _ hks]
+      simp
+
+/-- the L2 view `ctrStream` reports after `n = data.length` bytes: `bytectr = n`; the counter half of `pblk` is
+    `be64(⌈n/16⌉ − 1)` (undetermined before the first block); `buf` is the keystream block in use (shown only
+    inside a block) -/
+def l2Of (key : List UInt8) (nonce : UInt64) (data : List UInt8) : CtrL2 :=
+  { bytectr := data.length, nonce := Ctr.be64 nonce.toNat,
+    counter := if data.length = 0 then none else some (Ctr.be64 ((data.length + 15) / 16 - 1)),
+    buf := if data.length % 16 = 0 then []
+           else Ctr.keystreamBlock (Aes.encryptBlock key) nonce (data.length / 16) }
+
+/-- **what `stepOp` computes for a `ctr` op**: SP 800-38A CTR (`Spec.Ctr.stream`) of FIPS-197 AES
+    (`Spec.Aes.encryptBlock`), and the L2 view `l2Of` -/
+theorem ctrStream_eq_spec (key data : List UInt8) (nonce : UInt64) (hk : key.length = 16 ∨ key.length = 32) :
+    ctrStream key (Ctr.be64 nonce.toNat) data =
+      some (Ctr.stream (Aes.encryptBlock key) nonce data, l2Of key nonce data) := by
+  obtain ⟨chunks, h1, h2⟩ := ctrGo_spec key (Ctr.be64 nonce.toNat) hk rfl ((data.length + 15) / 16) 0 data [] []
+    (by omega)
+  have e1 : chunks.reverse.flatten = Ctr.stream (Aes.encryptBlock key) nonce data := by
+    rw [h2, List.reverse_nil, List.flatten_nil, List.nil_append, ← List.range_eq_range']; rfl
+  have e2 : (if data.length % 16 = 0 then []
+      else if (data.length + 15) / 16 = 0 then []
+        else Aes.encryptBlock key (Ctr.be64 nonce.toNat ++ Ctr.be64 (0 + (data.length + 15) / 16 - 1))) =
+      (l2Of key nonce data).buf := by
+    unfold l2Of
+    by_cases hm : data.length % 16 = 0
+    · simp only [hm, if_true]
+    · simp only [hm, if_false]
+      rw [if_neg (by omega), show 0 + (data.length + 15) / 16 - 1 = data.length / 16 by omega]; rfl
+  unfold ctrStream
+  rw [if_neg (by simp only [Proofs.AesCtr.be64_length]; omega)]
+  simp only [h1, e1, e2]
+  rfl
+
+theorem ctrStream_none (key nb data : List UInt8) (h : ¬ ((key.length = 16 ∨ key.length = 32) ∧ nb.length = 8)) :
+    ctrStream key nb data = none := by
+  unfold ctrStream
+  rw [if_pos (by
+    by_cases hk : key.length = 16 ∨ key.length = 32
+    · exact Or.inr (fun hn => h ⟨hk, hn⟩)
+    · exact Or.inl hk)]
+
+/-- every 8-byte string is the big-endian encoding of a 64-bit nonce -/
+theorem be64_surj (nb : List UInt8) (h : nb.length = 8) : ∃ n : UInt64, Ctr.be64 n.toNat = nb := by
+  obtain ⟨b0, b1, b2, b3, b4, b5, b6, b7, rfl⟩ := Proofs.AesCtr.len8 nb h
+  have h0 := b0.toNat_lt; have h1 := b1.toNat_lt; have h2 := b2.toNat_lt; have h3 := b3.toNat_lt
+  have h4 := b4.toNat_lt; have h5 := b5.toNat_lt; have h6 := b6.toNat_lt; have h7 := b7.toNat_lt
+  refine ⟨UInt64.ofNat (b0.toNat * 2^56 + b1.toNat * 2^48 + b2.toNat * 2^40 + b3.toNat * 2^32 + b4.toNat * 2^24 +
+    b5.toNat * 2^16 + b6.toNat * 2^8 + b7.toNat), ?_⟩
+  rw [Proofs.AesStep.ofNat_toNat _ (by omega)]
+  simp only [Ctr.be64, List.cons.injEq, and_true]
+  refine ⟨?_, ?_, ?_, ?_, ?_, ?_, ?_, ?_⟩ <;>
+    (apply UInt8.toNat_inj.mp
+     rw [UInt8.toNat_ofNat']
+     omega)
+
+/-! ### the routed C code paths (`Model.AesCtr`, C02's statement-level model of crypto_aesctr*.c) -/
+
+/-- what the harness prints of a `struct crypto_aesctr` (`bytectr`; `pblk`: only the nonce half and byte 15 before
+    the first block; `buf` only inside a block) equals the L2 view `l2` -/
+def L2Agrees {κ : Type} (s : Model.AesCtr.Stream κ) (l2 : CtrL2) : Prop :=
+  s.bytectr.toNat = l2.bytectr ∧ s.pblk.take 8 = l2.nonce ∧
+  (match l2.counter with
+    | none => s.pblk[15]? = some 0xff
+    | some c => s.pblk.drop 8 = c) ∧
+  (l2.bytectr % 16 ≠ 0 → s.buf = l2.buf)
+
+/-- a run of the code path with block function `enc` under the expanded key `k`: `crypto_aesctr_init` on a fresh object
+    with memory contents `raw`, then the `crypto_aesctr_stream` calls `calls` (each with its own routing to the
+    portable or the bulk loop): no call fails, the concatenated outputs are `out`, the final object shows `l2` -/
+def CtrPathOk {κ : Type} (enc : κ → List UInt8 → List UInt8) (k : κ) (raw : Model.AesCtr.Raw) (nonce : UInt64)
+    (calls : List Model.AesCtr.Call) (out : List UInt8) (l2 : CtrL2) : Prop :=
+  ∃ s0 s outs, Model.AesCtr.init raw k nonce = some s0 ∧ Model.AesCtr.streamCalls enc s0 calls = some (s, outs) ∧
+    outs.flatten = out ∧ outs.map List.length = calls.map (·.data.length) ∧ L2Agrees s l2
+
+/-- any block function that is FIPS-197 AES under `key` on 16-byte blocks: the code path gives the Spec's stream and
+    the L2 view of `ctrStream`, for every partition into calls and every routing -/
+theorem ctrPath_ok {κ : Type} (enc : κ → List UInt8 → List UInt8)
+    (hE : ∀ k b, b.length = 16 → (enc k b).length = 16) (k : κ) (key : List UInt8)
+    (hagree : ∀ b, b.length = 16 → enc k b = Aes.encryptBlock key b)
+    (raw : Model.AesCtr.Raw) (hraw : raw.pblk.length = 16) (nonce : UInt64) (calls : List Model.AesCtr.Call)
+    (hlim : (Proofs.AesCtr.inputs calls).length < 2^64) :
+    CtrPathOk enc k raw nonce calls (Ctr.stream (Aes.encryptBlock key) nonce (Proofs.AesCtr.inputs calls))
+      (l2Of key nonce (Proofs.AesCtr.inputs calls)) := by
+  obtain ⟨s0, h0, hinv, hz⟩ := Proofs.AesCtr.init2_spec enc
+    { key := k, bytectr := raw.bytectr, buf := raw.buf, pblk := raw.pblk } (some k) nonce hraw
+  have hz' : s0.bytectr.toNat = 0 := by rw [hz]; rfl
+  obtain ⟨s, outs, hrun, hflat, hlens, hinvs, hpos⟩ :=
+    Proofs.AesCtr.streamCalls_spec enc hE k nonce calls s0 hinv (by rw [hz']; omega)
+  rw [hz', Nat.zero_add] at hpos
+  refine ⟨s0, s, outs, h0, hrun, ?_, hlens, hpos, hinvs.nonceOk, ?_, ?_⟩
+  · rw [hflat, hz', ← Proofs.AesCtr.stream_eq_streamAt _ _ (hE k)]
+    exact Proofs.AesCtr.stream_congr _ _ nonce hagree _
+  · have hc := hinvs.ctr
+    rw [hpos] at hc
+    unfold l2Of
+    by_cases hn : (Proofs.AesCtr.inputs calls).length = 0
+    · simp only [hn, if_true] at hc ⊢; exact hc
+    · simp only [hn, if_false] at hc ⊢
+      rw [hc]; congr 1; omega
+  · intro hne
+    have hb := hinvs.buf (by rw [hpos]; exact hne)
+    rw [hb, hpos]
+    unfold l2Of
+    simp only [show ((Proofs.AesCtr.inputs calls).length % 16 = 0) = False from eq_false hne, if_false]
+    exact hagree _ (by simp [Ctr.counterBlock, Proofs.AesCtr.be64_length])
+
+/-! ### the three block functions a build can route to -/
+
+/-- a 128- or 256-bit AES key -/
+abbrev AesKey := { k : List UInt8 // k.length = 16 ∨ k.length = 32 }
+
+/-- the block function of the AES-NI build by C03's instruction-level model (`Model.CpuAesni`:
+    `crypto_aes_key_expand_aesni` = `MKRKEY128/256` with `AESKEYGENASSIST`, then `AESENC`… `AESENCLAST`) -/
+def niEnc (k : AesKey) (b : List UInt8) : List UInt8 :=
+  match (Model.CpuAesni.R.ofBytes b).bind (Model.CpuAesni.aesniEncrypt k.1) with
+  | some c => c.bytes
+  | none => []
+
+/-- the same code by C02's instruction-level model (`Model.AesNi`, an independent transcription on byte strings) -/
+def niEncB (k : AesKey) (b : List UInt8) : List UInt8 :=
+  match (Model.AesNi.keyExpand k.1).bind (Model.AesNi.encryptBlock b) with
+  | some c => c
+  | none => []
+
+/-- the AES-NI instruction model of C03, on bytes, is `Spec.Aes.encryptBlock` -/
+theorem aesni_bytes_eq_spec (key blk : List UInt8) (hk : key.length = 16 ∨ key.length = 32) (hb : blk.length = 16) :
+    (Model.CpuAesni.R.ofBytes blk).bind (fun b => (Model.CpuAesni.aesniEncrypt key b).map (·.bytes)) =
+      some (Aes.encryptBlock key blk) := by
+  obtain ⟨b, h1, h2⟩ := CpuAesSpec.ofBytes_bytes blk hb
+  rw [h1, Option.bind_some, Proofs.CpuAesni.aesniEncrypt_eq key b hk, CpuAesSpec.encrypt_eq_spec key hk b, h2]
+
+theorem niEnc_eq_spec (k : AesKey) (b : List UInt8) (hb : b.length = 16) : niEnc k b = Aes.encryptBlock k.1 b := by
+  have h := aesni_bytes_eq_spec k.1 b k.2 hb
+  unfold niEnc
+  cases hx : Model.CpuAesni.R.ofBytes b with
+  | none => rw [hx] at h; cases h
+  | some r =>
+    rw [hx, Option.bind_some] at h
+    rw [Option.bind_some]
+    cases hy : Model.CpuAesni.aesniEncrypt k.1 r with
+    | none => rw [hy] at h; cases h
+    | some c => rw [hy] at h; exact Option.some.inj h
+
+theorem niEncB_eq_spec (k : AesKey) (b : List UInt8) (hb : b.length = 16) : niEncB k b = Aes.encryptBlock k.1 b := by
+  unfold niEncB
+  rw [Proofs.AesStep.niKey_encrypt k.1 b k.2 hb]; rfl
+
+theorem niEnc_length (k : AesKey) (b : List UInt8) (hb : b.length = 16) : (niEnc k b).length = 16 := by
+  rw [niEnc_eq_spec k b hb]; exact Proofs.Aes.encryptBlock_length k.1 b k.2 hb
+
+theorem niEncB_length (k : AesKey) (b : List UInt8) (hb : b.length = 16) : (niEncB k b).length = 16 := by
+  rw [niEncB_eq_spec k b hb]; exact Proofs.Aes.encryptBlock_length k.1 b k.2 hb
+
+/-! ## `sha`, `xform`, `insn` -/
+
+/-- the chaining value over a message that is a concatenation of 64-byte blocks is the fold of the compression function -/
+theorem absorb_flatten (p : MD.Params) : ∀ (bs : List (List UInt8)) (s : p.St), (∀ b ∈ bs, b.length = 64) →
+    MD.absorb p s bs.flatten = bs.foldl p.compress s
+  | [], s, _ => Proofs.MD.absorb_short p s [] (by simp)
+  | b :: bs, s, h => by
+    rw [List.flatten_cons, Proofs.MD.absorb_block p s b _ (h b (by simp)), List.foldl_cons]
+    exact absorb_flatten p bs _ (fun x hx => h x (by simp [hx]))
+
+theorem regsOfBytes_some (s : List UInt8) (h : s.length = 32) : ∃ r, regsOfBytes s = some r := by
+  match s, h with
+  | [a0, a1, a2, a3, a4, a5, a6, a7, a8, a9, a10, a11, a12, a13, a14, a15, a16, a17, a18, a19, a20, a21, a22, a23,
+     a24, a25, a26, a27, a28, a29, a30, a31], _ => exact ⟨_, rfl⟩
+
+/-- `AESENC` of the instruction model, on bytes, is one FIPS-197 round as `Spec.Aes` writes it -/
+theorem aesenc_bytes (a b : Model.CpuAesni.R) : (Model.CpuAesni.aesenc a b).bytes = Aes.round a.bytes b.bytes := by
+  rw [Proofs.CpuAesni.aesenc_eq, CpuAesSpec.round_bytes]
+
+theorem aesenclast_bytes (a b : Model.CpuAesni.R) :
+    (Model.CpuAesni.aesenclast a b).bytes = Aes.finalRound a.bytes b.bytes := by
+  rw [Proofs.CpuAesni.aesenclast_eq, CpuAesSpec.finalRound_bytes]
+
+/-- the two transcriptions of `AESKEYGENASSIST` (C03: lanes, C02: byte strings) agree -/
+theorem keygen_bytes (a : Model.CpuAesni.R) (imm : UInt8) :
+    (Model.CpuAesni.aeskeygenassist a imm).bytes = Model.AesNi.aeskeygenassist a.bytes imm := by
+  obtain ⟨⟨_, _, _, _⟩, ⟨_, _, _, _⟩, ⟨_, _, _, _⟩, ⟨_, _, _, _⟩⟩ := a
+  simp [Model.CpuAesni.aeskeygenassist, Model.AesNi.aeskeygenassist, Model.AesNi.dword, Model.CpuAesni.R.bytes,
+    Model.CpuAesni.W4.bytes, Model.CpuAesni.Fips.subWord, Model.CpuAesni.Fips.rotWord, Model.CpuAesni.W4.map,
+    Aes.subWord, Aes.rotWord, Model.AesNi.pxor, Aes.xorBytes, CpuAesSpec.sbox_eq, Proofs.CpuAesni.W4.xor_def]
+
+theorem stepOp_insn (cfg : Cfg) (i : Insn) : stepOp cfg (.insn (some i)) = .insn (insn i) := rfl
+
+/-- the `CRC32` instruction on a source of 1, 4 or 8 bytes: the byte step folded over the source in address order -/
+theorem insn_crc32 (a b c d : UInt8) (src : List UInt8) (h : src.length = 1 ∨ src.length = 4 ∨ src.length = 8) :
+    insn (.crc32 [a, b, c, d] src) = some (.word (src.foldl byteStep (Spec.le32 a b c d))) := by
+  rw [insn, if_pos h, ← crc32Insn_eq_fold]
+  rfl
+
+theorem ofBytes_of_bytes (r : Model.CpuAesni.R) : Model.CpuAesni.R.ofBytes r.bytes = some r := by
+  obtain ⟨⟨_, _, _, _⟩, ⟨_, _, _, _⟩, ⟨_, _, _, _⟩, ⟨_, _, _, _⟩⟩ := r
+  rfl
+
+theorem insn_aesenc (ra rb : Model.CpuAesni.R) :
+    insn (.aesenc ra.bytes rb.bytes) = some (.reg (Aes.round ra.bytes rb.bytes)) := by
+  rw [insn, ofBytes_of_bytes, ofBytes_of_bytes, ← aesenc_bytes]
+  rfl
+
+theorem insn_aesenclast (ra rb : Model.CpuAesni.R) :
+    insn (.aesenclast ra.bytes rb.bytes) = some (.reg (Aes.finalRound ra.bytes rb.bytes)) := by
+  rw [insn, ofBytes_of_bytes, ofBytes_of_bytes, ← aesenclast_bytes]
+  rfl
+
+theorem insn_keygen (ra : Model.CpuAesni.R) (imm : UInt8) :
+    insn (.keygen imm ra.bytes) = some (.reg (Model.AesNi.aeskeygenassist ra.bytes imm)) := by
+  rw [insn, ofBytes_of_bytes, ← keygen_bytes]
+  rfl
+
+end aes
 
 end Percival.Proofs.CpuStep
